@@ -46,6 +46,8 @@ func genC02(rt *rapid.T) CaseC02 {
 			a.J = rapid.IntRange(0, c.N-1).Draw(rt, "j")
 		case "deliver", "drop", "dup", "release", "dropexchange":
 			a.K = rapid.IntRange(0, 30).Draw(rt, "k")
+		case "restart":
+			a.K = rapid.IntRange(0, 1).Draw(rt, "lateLoad")
 		case "bounce":
 			a.J = rapid.IntRange(0, c.N-1).Draw(rt, "j")
 		case "write":
@@ -80,7 +82,11 @@ func genC02(rt *rapid.T) CaseC02 {
 	return c
 }
 
-func execC02(c CaseC02) *Outcome {
+func execC02(c CaseC02) *Outcome { return execC02x(c, false) }
+
+// execC02x: with strictRestart, every restart is also judged by C05's clause - what the replica held before it
+// stopped (acknowledged writes and entries reported as replicated) is there again after Open and Load.
+func execC02x(c CaseC02, strictRestart bool) *Outcome {
 	ctx := context.Background()
 	o := &Outcome{}
 	world.ResetHooks()
@@ -234,17 +240,51 @@ func execC02(c CaseC02) *Outcome {
 				faulty = true
 			}
 		case "restart":
+			heldBefore := hashSetOf(cl.Stores[i])
 			if gated[i] {
 				// opening the database reads its manifest: not while the gate is on
 				w.Peers[i].SetGate(false)
 				gated[i] = false
 			}
-			if err := cl.Reopen(ctx, i); err != nil {
+			if a.K%2 == 1 {
+				// the application loads late: the instance is up and the database open (the peers see it join and
+				// hand it their heads, which are merged) before Load reads the replica's own cached heads back
+				p := w.Peers[i]
+				p.StopInstance()
+				if _, err := p.StartInstance(ctx); err != nil {
+					return fail("action %d: restart of replica %d failed: %v", ai, i, err)
+				}
+				s2, err := p.DB.Open(ctx, cl.Addr, cl.OpenOpts(&orbitdb.CreateDBOptions{}))
+				if err != nil {
+					return fail("action %d: reopening on replica %d failed: %v", ai, i, err)
+				}
+				cl.Stores[i] = s2
+				w.DeliverAllHeld()
+				w.WaitQuiescent([]iface.Store{s2}, &world.QuiesceOpts{AllowHeld: true}, 2*time.Second)
+				w.DeliverAllHeld()
+				w.WaitQuiescent([]iface.Store{s2}, &world.QuiesceOpts{AllowHeld: true}, 2*time.Second)
+				if err := s2.Load(ctx, -1); err != nil {
+					return fail("action %d: Load after a late restart of replica %d failed: %v", ai, i, err)
+				}
+				o.Labels = append(o.Labels, "restart-with-late-load")
+			} else if err := cl.Reopen(ctx, i); err != nil {
 				return fail("action %d: restart of replica %d failed: %v", ai, i, err)
 			}
 			restarted[i] = true
 			if len(acked) > 0 {
 				faulty = true
+			}
+			if strictRestart {
+				now := hashSetOf(cl.Stores[i])
+				lost := 0
+				for h := range heldBefore {
+					if !now[h] {
+						lost++
+					}
+				}
+				if lost > 0 {
+					return fail("action %d: after the restart of replica %d (late load: %v) and Load, %d of the %d entries it held before stopping are missing", ai, i, a.K%2 == 1, lost, len(heldBefore))
+				}
 			}
 		}
 	}
@@ -332,3 +372,13 @@ func execC02(c CaseC02) *Outcome {
 }
 
 func TestC02(t *testing.T) { runCheck(t, "C02", genC02, execC02) }
+
+// TestC05Restarts: the fault scripts of C02 (replication on, partitions, lost announcements), every restart judged
+// by C05's clause as well; one restart with a late Load is appended to every case.
+func TestC05Restarts(t *testing.T) {
+	runCheck(t, "C05", func(rt *rapid.T) CaseC02 {
+		c := genC02(rt)
+		c.Acts = append(c.Acts, ActC02{Kind: "deliverall"}, ActC02{Kind: "restart", I: rapid.IntRange(0, c.N-1).Draw(rt, "ri"), K: 1})
+		return c
+	}, func(c CaseC02) *Outcome { return execC02x(c, true) })
+}
